@@ -31,6 +31,7 @@ fn shape(p: &mut Profile, r: &mut Rng) {
     p.fault_pct = p.fault_pct.min(10);
     p.flip_pm = 0;
     p.initial_cons = true;
+    p.representable_ns_only = true;
     if r.pct(50) {
         p.w_wrap += 3;
     }
@@ -287,6 +288,26 @@ fn extra(pre: &World, post: &mut World, t: &TraceOp, info: &StepInfo, stats: &mu
     for r in &roots {
         if let Err(e) = check_serialisation(post, *r, stats) {
             return vec![e];
+        }
+    }
+    // ---- clause 1 also holds for the serialisation of a subtree in place: a few nested elements
+    let nested: Vec<Lid> = post
+        .model
+        .nodes
+        .iter()
+        .filter(|(_, n)| n.live && n.parent.is_some() && matches!(n.kind, Kind::Elem(_)))
+        .map(|(l, _)| *l)
+        .collect();
+    if !nested.is_empty() {
+        for k in 0..3usize.min(nested.len()) {
+            let pick = nested[(crate::rng::mix(t.sid as u64, k as u64, 11) % nested.len() as u64) as usize];
+            if !post.handles.contains_key(&pick) {
+                continue;
+            }
+            stats.inc("probe/c10_nested_elements_serialised");
+            if let Err(e) = check_serialisation(post, pick, stats) {
+                return vec![e];
+            }
         }
     }
     // ---- clauses 2 and 3: after a repair
